@@ -1,4 +1,5 @@
 import ClaripyProofs.Lemmas.VSA.Balancer
+import ClaripyProofs.Lemmas.VSA.BalancerFinal
 /-!
 # C25 — constraint_to_si never cuts off a satisfying assignment
 
@@ -9,8 +10,18 @@ set of satisfying `x`; `C25_lone_bound_not_a_preimage` shows that one of the two
 root cause of the remaining open finding (a partner assumption is missing when the addition sits under an
 Extract/ZeroExt/Concat/shift/mask/If).  For the arms that drop bits (Extract(k,0,·), left shift) the repaired code keeps
 exactly the comparison operators for which the arm is a consequence (`C25_extract_uge`, `C25_extract_ne`, `C25_shl_uge`);
-the negations with witnesses show why `==`, `≤`, `<` had to go.  There is no Lean model of the AST rewriting itself: the
-end-to-end guarantee comes from the enumerating oracle of the check.
+the negations with witnesses show why `==`, `≤`, `<` had to go.
+
+Second part (below, "the model of the AST rewriting"): `Claripy/VSA/BalancerModel.lean` transcribes `Balancer._doit` on one
+comparison (alignment, the arms of `_balance`, `_get_assumptions`, the work list, the handlers) and is tied to the real
+`constraint_to_si` by exact correspondence (harness/props/C25.py).  Proved for ALL widths, ASTs and annotations:
+every arm other than `+` / `-` keeps "the truism holds" (`C25_step_holds`), `+` / `-` rotate the truism (`C25_add_rot`,
+`C25_sub_rot`), the alignment keeps the value (`C25_align_sound`), the loop keeps both (`C25_balance_holds`,
+`C25_balance_rot`), the handlers turn a truism that holds into plain bounds (`C25_handle_sound`), and the composite
+`C25_balancer_sound`: the bounds `_doit` records contain the value of their expression under every satisfying assignment
+— for unsigned orderings on whose two paths (truism, implicit assumption) no constant is moved across `+` / `-`, and for
+`==` / `!=` on every path.  The guard is needed: `C25_mixed_path_cuts_off_model` is a concrete constraint (`ZeroExt(4, x) + 3 <= 5`)
+where the model — and the real code — bound `ZeroExt(4, x)` by the empty set although `x = 0` satisfies it (open finding).
 -/
 namespace Claripy.Props.C25
 open Claripy.VSA
@@ -40,6 +51,123 @@ theorem C25_combine_bounds (x l1 u1 l2 u2 : Nat) (h1 : l1 ≤ x ∧ x ≤ u1) (h
 
 /-- non-vacuity of the pair theorem: `x + 1 ≤ 5` at 8 bits is `W[255, 4]` -/
 theorem test_pair_example : balAddPair 8 .ule 1 5 = some (255, 4) ∧ Win 256 255 4 255 ∧ Win 256 255 4 3 ∧ ¬ Win 256 255 4 5 := by
+  decide
+
+
+/-! ## the model of `Balancer._doit` -/
+open Claripy.VSA.Bal
+
+set_option linter.unusedSectionVars false
+section
+variable (anno : Nat → SI) (env : Nat → Nat) (hctx : ∀ i, (anno i).WF ∧ (anno i).mem (env i)) (hnrm : ∀ i, Nrm (anno i))
+include hctx hnrm
+
+/-- `_align_truism`: operator and other side unchanged, the left side keeps its value (and stays well typed) -/
+theorem C25_align_sound (t ta : Tru) (hok : TruOK anno env t) (h : alignTru anno t = .ok ta) :
+    ta.op = t.op ∧ ta.r = t.r ∧ ta.w = t.w ∧ evalBV env ta.lhs = evalBV env t.lhs ∧ TruOK anno env ta :=
+  let ⟨h1, h2, h3, h4, h5, _⟩ := alignTru_spec anno env t ta hok h
+  ⟨h1, h2, h3, h4, h5⟩
+
+/-- **per-step soundness**: one arm of `_balance` (`ZeroExt`, `SignExt`, `Extract`, `Concat`, `__and__`, `__lshift__`; `+` / `-`
+for `==` and `!=`) turns a truism that holds into one that holds — unsigned orderings, `==`, `!=`, every width -/
+theorem C25_step_holds (ta t' : Tru) (hok : TruOK anno env ta) (hconv : ∃ p, convBV anno ta.lhs [] = .ok p)
+    (hop : unsOp ta.op = true) (hh : ta.holds env) (h : balStep anno ta = .ok t') (hs : symBV t'.lhs = true)
+    (hallow : isModLhs ta.lhs = true → (ta.op = .eq ∨ ta.op = .ne)) : TruOK anno env t' ∧ t'.op = ta.op ∧ t'.holds env :=
+  balStep_holds anno env hctx hnrm ta t' hok hconv hop hh h hs (by
+    by_cases hm : isModLhs ta.lhs = true
+    · rw [if_pos hm]; exact hallow hm
+    · rw [if_neg hm]; trivial)
+
+/-- `_balance_add`: nothing happens, or the truism is rotated by the constant (`value(lhs) = value(lhs') + c`, `r' = r - c`) -/
+theorem C25_add_rot (t t' : Tru) (a b : BV) (hl : t.lhs = .bin .add a b) (hok : TruOK anno env t)
+    (hconv : ∃ p, convBV anno t.lhs [] = .ok p) (h : balAdd t a b = .ok t') (hs : symBV t'.lhs = true) :
+    t' = t ∨ (TruOK anno env t' ∧ Rot env t t') :=
+  (balAdd_rot anno env hctx hnrm t t' a b hl hok hconv h hs).imp_right fun ⟨h1, h2, _⟩ => ⟨h1, h2⟩
+
+theorem C25_sub_rot (t t' : Tru) (a b : BV) (hl : t.lhs = .bin .sub a b) (hok : TruOK anno env t)
+    (hconv : ∃ p, convBV anno t.lhs [] = .ok p) (h : balSub t a b = .ok t') (hs : symBV t'.lhs = true) :
+    t' = t ∨ (TruOK anno env t' ∧ Rot env t t') :=
+  (balSub_rot anno env hctx hnrm t t' a b hl hok hconv h hs).imp_right fun ⟨h1, h2, _⟩ => ⟨h1, h2⟩
+
+/-- the loop `_balance` keeps "the truism holds" when no constant is moved across `+` / `-` (always for `==`, `!=`) -/
+theorem C25_balance_holds (t : Tru) (out : BalOut) (hok : TruOK anno env t) (hop : unsOp t.op = true) (hh : t.holds env)
+    (h : balance1 anno t = .ok out) (hs : symBV out.t.lhs = true)
+    (hcov : out.usedMod = true → (t.op = .eq ∨ t.op = .ne)) :
+    TruOK anno env out.t ∧ out.t.op = t.op ∧ out.t.holds env :=
+  balance1_holds anno env hctx hnrm t out hok hop hh h hs hcov
+
+/-- the loop `_balance` that only moves constants across `+` / `-` rotates the truism -/
+theorem C25_balance_rot (t : Tru) (out : BalOut) (hok : TruOK anno env t)
+    (hrange : ∀ v, evalBV env t.lhs = some v → v < 2 ^ t.w)
+    (h : balance1 anno t = .ok out) (hs : symBV out.t.lhs = true) (hcov : out.usedPt = false) :
+    TruOK anno env out.t ∧ Rot env t out.t :=
+  let ⟨h1, h2, _⟩ := balance1_rot anno env hctx hnrm t out hok hrange h hs hcov
+  ⟨h1, h2⟩
+
+/-- `_handle` (`_handle_eq`, `_handle_ne`, `_handle_comparison`): a truism that holds yields bounds that hold -/
+theorem C25_handle_sound (t : Tru) (bs bs' : Bounds) (hok : TruOK anno env t) (hop : unsOp t.op = true) (hh : t.holds env)
+    (hps : PSound env bs) (h : handle anno t bs = .ok bs') : PSound env bs' :=
+  handle_pt anno env hctx hnrm t bs bs' hok hop hh hps h
+
+/-- **composite**: if the model of `_doit` returns the bounds `bs` for the comparison `a op b` and the assignment satisfies
+it, every recorded pair contains the value of its expression (as the wrapped interval `_replacements_iter` builds from
+it) — for unsigned orderings on whose two balancing paths no constant is moved across `+` / `-`, and for `==` / `!=` on
+every path (`CoveredPt`) -/
+theorem C25_balancer_sound (op : CmpOp) (a b : BV) (bs : Bounds) (info : PathInfo)
+    (hoa : ExprOK anno env a) (hob : ExprOK anno env b) (hwab : wd a = wd b) (hop : unsOp op = true)
+    (hsym : ∀ r w, b = .const r w → symBV a = true)
+    (h : doit anno (.cmp op a b) = .ok (.sat bs info)) (hcov : CoveredPt op info)
+    (hsat : evalB env (.cmp op a b) = some true) : Sound env bs :=
+  psound_sound env bs (doit_pt anno env hctx hnrm op a b bs info hoa hob hwab hop hsym h hcov hsat)
+
+end
+
+/-- the last step of `_replacements_iter`: `convert(expr) ∩ SI(1, mn, mx)` contains the value when `convert(expr)` does
+(C24), is aligned and normal (what the meet needs, C22) and the recorded pair contains it -/
+theorem C25_replacement_interval (w : Nat) (lo hi : Option Int) (v : Nat) (hw : 0 < w) (hv : v < 2 ^ w) (hin : InB w lo hi v)
+    (s r : SI) (hs : s.WF ∧ s.bits = w) (hmem : s.mem v) (hal : s.Aligned) (hn : Nrm s)
+    (h : s.intersection (SI.new w 1 (lo.getD 0) (hi.getD ((2 : Int) ^ w - 1))) = .ok r) : r.mem v := by
+  have hb : WFw w (SI.new w 1 (lo.getD 0) (hi.getD ((2 : Int) ^ w - 1))) :=
+    ⟨new_WF _ _ _ _ hw (fun h1 => by cases h1), new_bits _ _ _ _⟩
+  have hbm : (SI.new w 1 (lo.getD 0) (hi.getD ((2 : Int) ^ w - 1))).mem v := by
+    rw [mem_new]
+    refine ⟨hv, hin, ?_⟩
+    rw [if_neg (by decide)]
+    exact Nat.mod_one _
+  have hbA : (SI.new w 1 (lo.getD 0) (hi.getD ((2 : Int) ^ w - 1))).Aligned := by
+    unfold SI.Aligned
+    rw [new_eq]
+    split
+    · exact Or.inl rfl
+    · split <;> exact Or.inr (Nat.mod_one _)
+  exact (meet_sound w s _ r hs hb hmem.1 (new_bottom _ _ _ _) hal hbA hn (nrm_new _ _ _ _ hw) h).2 v hmem hbm
+
+/-- the guard of the composite theorem is needed (open finding C25-modular-under-width-change): for
+`ZeroExt(4, x) + 3 <= 5` over a plain 4-bit `x` the model — like the real `constraint_to_si` — records the lower bound 253 for
+`ZeroExt(4, x)` (the truism goes `+` then `ZeroExt`, its assumption stops after `+`), and `x = 0` satisfies the constraint -/
+instance (w : Nat) (lo hi : Option Int) (v : Nat) : Decidable (InB w lo hi v) := by unfold InB; infer_instance
+
+def mixedC : BExp := .cmp .ule (.bin .add (.zext 4 (.free 0 4)) (.const 3 8)) (.const 5 8)
+def boundsOf (r : M Res) : Option Bounds := match r with | .ok (.sat bs _) => some bs | _ => none
+
+set_option maxRecDepth 100000 in
+theorem C25_mixed_path_cuts_off_model :
+    boundsOf (doit (fun _ => SI.top 4) mixedC) = some [(.free 0 4, none, some 2), (.zext 4 (.free 0 4), some 253, none)] ∧
+    evalB (fun _ => 0) mixedC = some true ∧ evalBV (fun _ => 0) (.zext 4 (.free 0 4)) = some 0 ∧
+    ¬ InB 8 (some 253) none 0 := by
+  decide
+
+/-- non-vacuity of the composite theorem: `ZeroExt(4, x) <= 5` is covered and bounds `x` by `[0, 5]` -/
+def coveredC : BExp := .cmp .ule (.zext 4 (.free 0 4)) (.const 5 8)
+def infoOf (r : M Res) : Option (Bool × Bool) :=
+  match r with
+  | .ok (.sat _ ⟨some m, some a⟩) => some (m.usedMod, a.usedMod)
+  | _ => none
+
+set_option maxRecDepth 100000 in
+theorem test_covered_example :
+    boundsOf (doit (fun _ => SI.top 4) coveredC) = some [(.free 0 4, some 0, some 5)] ∧
+    infoOf (doit (fun _ => SI.top 4) coveredC) = some (false, false) := by
   decide
 
 end Claripy.Props.C25
